@@ -241,6 +241,21 @@ func VH_C08_two_connections() {
 	vassert("C08.both_replies_sent", a.acked == 1 && b.acked == 1)
 }
 
+// VH_C08_with_flusher: one writing connection and one pass of the background flusher (the real closure of
+// backgroundSyncAOF): whatever the flusher does to the buffer and the dirty flag, and however it interleaves
+// with the connection's pre-write block, the acknowledgement leaves after the bytes are in the file.
+//verif:cfg use=c08 b_threads=1_connection(SET)+the_background_flusher(one_pass) quick.maxswitches=4 thorough.maxswitches=8 b_visible_operations=lock,unlock,atomic.Bool_load/store/compare-and-swap/swap,socket_read/write ignorego=1 maxpaths=400000
+func VH_C08_with_flusher() {
+	s := vhAckServer()
+	a := vhConnFor(s, 0, []string{"SET", "k", "a", "POINT", "1", "2"}, []string{"SET", "k", "a", "POINT", "1", "2"})
+	vhFlusher = true
+	vhServeConns(s, a)
+	vhFlusher = false
+	vassert("C08.reply_was_sent", a.acked == 1)
+}
+
+var vhFlusher bool
+
 // vhServeConns runs the connection closure of netServe for each connection: as interpreted threads in the
 // engine; natively through the real netServe accept loop (fake listener), forced through the schedule.
 func vhServeConns(s *Server, conns ...*vhConn) {
@@ -249,13 +264,17 @@ func vhServeConns(s *Server, conns ...*vhConn) {
 		vassert("C08.acknowledged_write_is_in_the_log_file", !vhNativeAckFailed)
 		return
 	}
-	if len(conns) == 1 {
+	if len(conns) == 1 && !vhFlusher {
 		vcallAnon("(*Server).netServe", s, net.Conn(conns[0]))
 		return
 	}
 	for _, c := range conns {
 		c := c
 		vspawn(func() { vcallAnon("(*Server).netServe", s, net.Conn(c)) })
+	}
+	if vhFlusher {
+		// one pass of the once-a-second flusher: the closure backgroundSyncAOF hands to its loop
+		vspawn(func() { vcallAnon("(*Server).backgroundSyncAOF", s) })
 	}
 	vrunThreads()
 }
